@@ -88,7 +88,8 @@ def _one(prop: str, base: str, m: Dict[str, Any], baseline: set) -> Dict[str, An
             new = [ln for ln in res.stdout.splitlines() if re.search(r' \[C\d\d\.\w+\]', ln) and _strip(ln) not in baseline and not ln.startswith('KNOWN')]
             if res.returncode != 2 and not new:
                 return {'id': m['id'], 'status': 'silent-ok', 'expect': None}
-            if m.get('refuse_ok') and res.returncode == 2 and not new and not any(ln.startswith('VIOLATION ') for ln in res.stdout.splitlines()):
+            new_alarm = [ln for ln in new if not ln.startswith(('UNRECOGNISED ', 'ANALYSIS-ERROR'))]
+            if m.get('refuse_ok') and res.returncode == 2 and not new_alarm and not any(ln.startswith('VIOLATION ') for ln in res.stdout.splitlines()):
                 # a correct variant outside the enumerated idioms: the check declines (no verdict), which is not an alarm
                 return {'id': m['id'], 'status': 'refused', 'expect': None}
             return {'id': m['id'], 'status': 'FALSE-ALARM', 'expect': None, 'exit': res.returncode, 'stdout_tail': res.stdout[-600:]}
